@@ -199,7 +199,7 @@ pub fn run(ctx: &Ctx) -> i32 {
     } else {
         acc.sample(json!({"schedules": nsched, "starts": nstart, "depth": depth, "unique_states": unique, "transitions": n_trans, "example_schedule": names[0], "example_history": "advance 59 s, next, advance 400 d, next, clone, next"}));
         acc.branch_n("histories-completed", unique);
-        if ctx.thorough || unique < 150_000 {
+        if (ctx.thorough && unique < 3_000_000) || unique < 150_000 {
             let mut e2 = vec![];
             let c2 = build(ctx.thorough, depth, Arc::new(AtomicU64::new(0)), &mut e2).checker().threads(1).spawn_bfs().join();
             if c2.unique_state_count() as u64 != unique {
